@@ -539,6 +539,16 @@ def run_gmres_restart(case):
                 ev.append([10, c + 1, start_code(sol, c + 1), 0])
                 rec['starts'].append(start_state(sol))
             sol.reset = reset
+            orig_arnoldi = sol.arnoldi
+            rec['breakdown'] = []
+
+            def arnoldi(k):
+                n0 = npc.norm(A.matvec(sol.qs[-1]))      # (the operator itself: not counted as an event)
+                orig_arnoldi(k)
+                # breakdown: nothing but rounding noise is left of A q_k after the orthogonalisation - the Krylov space is exhausted
+                if not (abs(sol.H[k + 1, k]) > 1.e-14 * n0):
+                    rec['breakdown'].append([len(sol.total_iters), int(k)])
+            sol.arnoldi = arnoldi
 
             class TracedX(npc.Array):
                 def iadd_prefactor_other(s, prefactor, other):
